@@ -65,7 +65,7 @@ theorem SF_ofRat_neg (q : ℚ) (nz : Bool) (hq : q ≠ 0) : (SF.ofRat q nz).neg 
   unfold SF.ofRat
   split
   · rename_i h; simp [h]
-  · rename_i h; simp [hq, h]
+  · rename_i h; simp [h]
 
 /-- the three fields recombine to the angle (pure algebra: no property of `floor` is needed) -/
 theorem dms_recombine (D : ℚ) :
